@@ -1032,6 +1032,17 @@ func GenC05(seed, run uint64, ok CompileOK) *Scenario {
 				s.Exprs = append(s.Exprs, ExprSpec{Text: t})
 			}
 		}
+		if r.Chance(1, 3) {
+			// names the process has not scanned before: non-ASCII letters, different ones per text
+			pool := []string{"é", "ü", "名", "前", "ж", "λ", "ñ", "ø", "字", "π", "ß", "ç"}
+			for k := r.Range(2, 4); k > 0; k-- {
+				a, b := r.Pick(pool), r.Pick(pool)
+				t := r.Pick([]string{"//" + a + "/" + b, "//" + a + "[@" + b + "]", "count(//" + a + b + ")", a + "/" + b + "/@" + a})
+				if ok == nil || ok(t) {
+					s.Exprs = append(s.Exprs, ExprSpec{Text: t})
+				}
+			}
+		}
 		s.Cfg.NS = r.Chance(1, 2)
 		s.Cfg.NSRebind = s.Cfg.NS && r.Chance(1, 2)
 		if s.Cfg.NS {
